@@ -1104,6 +1104,17 @@ var c01Trusts = []c01Trust{
 // IdP metadata that publishes no usable signing key (an encryption key only / an empty signing descriptor): nothing may be accepted.
 var c01NoKeyTrusts = []c01Trust{{"metaenconly", nil}, {"metaemptysign", nil}, {"verifier-rejecting", nil}}
 
+// IdP metadata in key rollover: next to (or instead of) the current certificate it lists certificates that are outside their validity
+// window on the validation clock - "idpnext" becomes valid one minute after T0 (inside the default clock-skew allowance), "idpfar" an
+// hour after, "idpold" expired one minute before T0, "idpancient" ten years before. The reference verifier is given all listed
+// certificates as roots and, like any X.509 verifier, accepts none of them outside its window.
+var c01WindowTrusts = []c01Trust{
+	{"metacerts:idp1,idpnext", []string{"idp1", "idpnext"}},
+	{"metacerts:idpnext", []string{"idpnext"}},
+	{"metacerts:idpold,idpnext", []string{"idpold", "idpnext"}},
+	{"metacerts:idp1,idpold,idpfar,idpancient", []string{"idp1", "idpold", "idpfar", "idpancient"}},
+}
+
 func rootsOf(t c01Trust) []*x509.Certificate {
 	var r []*x509.Certificate
 	for _, n := range t.roots {
@@ -1157,7 +1168,7 @@ func runC01(c *core.Ctx) {
 		trusts = c01Trusts
 	}
 	sps := map[string]*saml.ServiceProvider{}
-	for _, t := range append(append([]c01Trust{}, c01Trusts...), c01NoKeyTrusts...) {
+	for _, t := range append(append(append([]c01Trust{}, c01Trusts...), c01NoKeyTrusts...), c01WindowTrusts...) {
 		sps[t.name] = harness.NewSP(harness.SPOpt{Trust: t.name})
 	}
 	// ordinary metadata, but the application installed its own SignatureVerifier, which refuses everything
@@ -1351,6 +1362,64 @@ func runC01(c *core.Ctx) {
 				}
 				evaluate(t, s1, 1, key, c01NoKeyTrusts, entries)
 			})
+		}
+	}
+
+	// trusted certificates outside their validity window: quoting one of them in KeyInfo (certificates are public) gives nobody a valid
+	// signature. Every operator alone, and every operator followed by each of the quoting operators.
+	c.Group("trusted-certificates-outside-their-validity-window")
+	{
+		var quote []c01Op
+		for _, kn := range []string{"idpnext", "idpold", "idpfar"} {
+			kn := kn
+			each := func(root *etree.Element, f func(s, ki *etree.Element)) bool {
+				n := 0
+				for _, s := range findNS(root, samlgen.NSDsig, "Signature") {
+					if kis := childNS(s, samlgen.NSDsig, "KeyInfo"); len(kis) > 0 {
+						f(s, kis[0])
+						n++
+					}
+				}
+				return n > 0
+			}
+			quote = append(quote, c01Op{"keyinfo/swap-cert-for-" + kn, func(root *etree.Element, _ *c01Pool) bool {
+				return each(root, func(s, ki *etree.Element) {
+					for _, x := range findNS(ki, samlgen.NSDsig, "X509Certificate") {
+						x.SetText(samlgen.Key(kn).CertB64)
+					}
+				})
+			}}, c01Op{"keyinfo/" + kn + "-cert-first", func(root *etree.Element, _ *c01Pool) bool {
+				return each(root, func(s, ki *etree.Element) {
+					for _, xd := range findNS(ki, samlgen.NSDsig, "X509Data") {
+						x := etree.NewElement("ds:X509Certificate")
+						x.SetText(samlgen.Key(kn).CertB64)
+						xd.InsertChildAt(0, x)
+					}
+				})
+			}})
+		}
+		all := append(append([]c01Op{{"unchanged", func(*etree.Element, *c01Pool) bool { return true }}}, ops...), quote...)
+		for _, in := range inits {
+			for _, op1 := range all {
+				for qi := -1; qi < len(quote); qi++ {
+					in, op1, qi := in, op1, qi
+					key := "cert-window/" + in.name + "/" + op1.name
+					if qi >= 0 {
+						key += " ; " + quote[qi].name
+					}
+					c.Case(key, func(t *core.T) {
+						s1, ok := apply(in.doc, op1)
+						if ok && qi >= 0 {
+							s1, ok = apply(s1, quote[qi])
+						}
+						if !ok {
+							t.Outcome("op-not-applicable")
+							return
+						}
+						evaluate(t, s1, 1, key, c01WindowTrusts, entries)
+					})
+				}
+			}
 		}
 	}
 
